@@ -60,6 +60,8 @@ def run_schedule(ctx, ender, choices, rng):
     for attr, val in list(m.__dict__.items()):
         if isinstance(val, type(threading.Lock())):
             setattr(m, attr, SchedLock(sched))
+        elif isinstance(val, type(threading.RLock())):
+            setattr(m, attr, SchedLock(sched, reentrant=True))
     eio = d.eio
     for name in ('send_packet', 'get_session', 'save_session'):
         orig = getattr(eio, name)
